@@ -19,6 +19,9 @@ Inductive act :=
 | ADone                    (* batch.done(...): the batch's futures resolve successfully *)
 | AFail                    (* batch.failure(...): the batch's futures fail *)
 | AReenqueue               (* the batch goes back to the accumulator for a retry *)
+| AAbortable               (* sender._abortable_error(...): the transaction becomes ABORTABLE_ERROR *)
+| ARetryAfterBackoff       (* return a backoff: the sender runs the handler again later *)
+| ARaiseFenced             (* raise ProducerFenced(): fatal *)
 | ARaiseSame               (* raise error_type(...) : the broker's own error class *)
 | ARaiseCode (c : Z)
 | ARaiseUnexpected         (* raise Errors.KafkaError(...) : "unexpected error", fatal *)
@@ -27,7 +30,7 @@ Inductive act :=
 | AFallThrough.            (* end of the translated statement list *)
 
 Definition is_raise (a : act) : bool :=
-  match a with ARaiseSame | ARaiseCode _ | ARaiseUnexpected | ARaiseOther => true | _ => false end.
+  match a with ARaiseSame | ARaiseCode _ | ARaiseUnexpected | ARaiseOther | ARaiseFenced => true | _ => false end.
 
 Definition is_recovery (a : act) : bool :=
   match a with
@@ -41,6 +44,7 @@ Definition act_eqb (a b : act) : bool :=
   | AResetGeneration, AResetGeneration | AMetadataUpdate, AMetadataUpdate | ABackoff, ABackoff
   | ASetMemberId, ASetMemberId | ARetryJoin, ARetryJoin | ANoRetry, ANoRetry | AErrored, AErrored
   | ADone, ADone | AFail, AFail | AReenqueue, AReenqueue
+  | AAbortable, AAbortable | ARetryAfterBackoff, ARetryAfterBackoff | ARaiseFenced, ARaiseFenced
   | ARaiseSame, ARaiseSame | ARaiseUnexpected, ARaiseUnexpected | ARaiseOther, ARaiseOther
   | AFallThrough, AFallThrough => true
   | ARaiseCode x, ARaiseCode y => x =? y
